@@ -102,6 +102,15 @@ class Checker:
             self.error(f"rule {rule}: found {found} {what}, need at least {minimum} "
                        f"(anchor vanished or idiom not recognised)")
 
+    def guard(self, fn, *a, **k):
+        """Run one sub-rule; an AnalysisError there is recorded (exit 2 unless a violation is found
+        elsewhere) instead of aborting the remaining rules."""
+        try:
+            return fn(*a, **k)
+        except AnalysisError as e:
+            self.error(str(e))
+            return None
+
     def count(self, rule: str) -> int:
         return sum(1 for i in self.instances if i.rule == rule)
 
